@@ -175,6 +175,8 @@ def run(ctx):
         prog = ctx.prog(config)
         from ..rules import extra as _x14
         _x14.check_import_guard(ck, prog, config, 'C14-d')
+        from . import c19 as _c19
+        _c19.shared_scratch(ck, prog, config, 'C14-e', ('zck_get_chunk_data', 'zck_get_chunk_comp_data'), 'random access')
         cr = prog.need_func('comp_read')
         seen, ext = prog.reachable_calls([cr])
         fp = prog.fp_targets()
